@@ -100,7 +100,9 @@ OnRet(s, e) ==
      ELSE LET r == s.resp vb == NormB(r.vbs)
               idok == r.reqid = s.req.reqid IN
           IF ~(r.commok /\ r.verok)
-          THEN << <<"accepted_wrong_community_or_version", e.kind = "exc" /\ e.snmp>> >>
+          THEN << <<"accepted_wrong_community_or_version", e.kind = "exc" /\ e.snmp>>,
+                  \* refused as a foreign message: its error-status is not this request's error
+                  <<"foreign_message_error_reported", e.status = 0>> >>
           ELSE IF ~idok          \* whatever else it carries (data or an error-status): it is not the answer to the request sent
           THEN << <<"accepted_wrong_id", e.kind = "exc">>,
                   <<"wrong_id_other_exception", e.cls = "InvalidResponseId">> >>
